@@ -281,7 +281,7 @@ class Parser:
         self._parse_subtree(node)
         root.add_child(node)
 
-    def _parse_subtree(self, root: ASTNode) -> None:
+    def _parse_subtree(self, root: ASTNode, in_split: bool = False) -> None:
         current = root
         while (token := self.next_token) is not None:
             match token.type:
@@ -306,13 +306,16 @@ class Parser:
                                     raise LiteralTokenError(ahead, "COLOR")
 
                         case _:  # split, alternatives are separated by `|`
-                            self._parse_subtree(current)
+                            self._parse_subtree(current, in_split=True)
                             self._assert_and_cunsume(TokenType.BRACKET_RIGHT)
 
                 case TokenType.BRACKET_RIGHT:
                     break
 
                 case TokenType.OR:
+                    if not in_split:
+                        raise TokenTypeError(token, "BRACKET_LEFT, BRACKET_RIGHT")
+
                     current = root
                     self._read_token()
 
